@@ -168,16 +168,26 @@ func (g *DirectedTargetGraph) GetDescendants(target model.BuildNode) []model.Bui
 }
 
 // GetAncestors returns a list of nodes that are ancestors (transitive dependencies) of the given node.
-// Recurses via the inEdges of each node.
+// Recurses via the inEdges of each node; every ancestor is visited and returned once,
+// in the order in which it is first reached.
 func (g *DirectedTargetGraph) GetAncestors(target model.BuildNode) []model.BuildNode {
 	var ancestors []model.BuildNode
-	for _, ancestor := range g.inEdges[target.GetLabel()] {
-		ancestors = append(ancestors, ancestor)
+	visited := map[label.TargetLabel]bool{target.GetLabel(): true}
 
-		// Recurse
-		recursiveAncestors := g.GetAncestors(ancestor)
-		ancestors = append(ancestors, recursiveAncestors...)
+	var visit func(node model.BuildNode)
+	visit = func(node model.BuildNode) {
+		for _, ancestor := range g.inEdges[node.GetLabel()] {
+			if visited[ancestor.GetLabel()] {
+				continue
+			}
+			visited[ancestor.GetLabel()] = true
+			ancestors = append(ancestors, ancestor)
+
+			// Recurse
+			visit(ancestor)
+		}
 	}
+	visit(target)
 	return ancestors
 }
 
